@@ -505,4 +505,4 @@ def pretags(c):
 
 
 def subchecks(tier):
-    return [Sub("history", body, strategy=graph_case, quick=800, thorough=16000, pretags=pretags, shrink_s=40)]
+    return [Sub("history", body, strategy=graph_case, quick=800, thorough=40000, pretags=pretags, shrink_s=40)]
